@@ -26,7 +26,7 @@ def run_pair(acc: Acc, ca: Cfg, cb: Cfg, variant: str) -> None:
     from comb_spec_searcher.bijection import EqPathParallelSpecFinder, ParallelSpecFinder
     from comb_spec_searcher.isomorphism import Isomorphism
 
-    Finder = ParallelSpecFinder if variant == "plain" else EqPathParallelSpecFinder
+    Finder = ParallelSpecFinder if variant.startswith("plain") else EqPathParallelSpecFinder
     where = f"{variant}: {ca.sid()} || {cb.sid()}"
     payload = {"a": ca.to_json(), "b": cb.to_json(), "variant": variant}
     acc.count("traces")
@@ -37,6 +37,17 @@ def run_pair(acc: Acc, ca: Cfg, cb: Cfg, variant: str) -> None:
         try:
             with deadline(120):
                 s1, s2 = build_searcher(ca), build_searcher(cb)
+                if variant.endswith("+exhausted"):
+                    # both universes fully expanded before the finder sees them (more
+                    # alternative rules survive pruning)
+                    from comb_spec_searcher.exception import NoMoreClassesToExpandError
+
+                    for s in (s1, s2):
+                        try:
+                            for _ in range(12):
+                                s.do_level()
+                        except NoMoreClassesToExpandError:
+                            pass
                 res = Finder(s1, s2).find()
         except Exception as e:  # noqa: BLE001
             acc.violation("finder-raises", call_site(e), where, f"{type(e).__name__}: {str(e)[:200]}", payload)
@@ -73,14 +84,14 @@ def run_pair(acc: Acc, ca: Cfg, cb: Cfg, variant: str) -> None:
 
 def configs(tier: str) -> List[Tuple[Cfg, Cfg, str]]:
     classes = dw.start_classes("quick")
-    packs = ["base", "sym", "inf1"] if tier == "quick" else ["base", "sym", "inf1", "inf2", "norm+sym", "two"]
+    packs = ["base", "sym", "inf1", "two"] if tier == "quick" else ["base", "sym", "inf1", "inf2", "norm+sym", "two", "sfac", "oneway+inf1"]
     stats_list = [()] if tier == "quick" else [(), ("a",)]
     res = []
     for pk in packs:
         for st in stats_list:
             for a in classes:
                 for b in classes:
-                    for variant in ("plain", "eqpath"):
+                    for variant in ("plain", "eqpath") + (("plain+exhausted", "eqpath+exhausted") if pk in ("two", "sfac") else ()):
                         res.append((Cfg.of(a.with_(stats=st), pk, "RuleDB"), Cfg.of(b.with_(stats=st), pk, "RuleDB"), variant))
     return res
 
